@@ -7,7 +7,6 @@
 //! evaluated by vm_compute) and, independently, with a brute-force SQL reference in this binary.
 //! The action table is covered exhaustively on a micro table (`chk_action`).
 mod ast;
-mod dbg;
 mod e2e;
 mod micro;
 mod refsql;
@@ -39,10 +38,6 @@ fn main() {
     }
     let rt = tokio::runtime::Builder::new_multi_thread().worker_threads(4).enable_all().build().unwrap();
     let only = args.rest.iter().position(|a| a == "--only").and_then(|i| args.rest.get(i + 1)).cloned();
-    if only.as_deref() == Some("dbg") {
-        rt.block_on(dbg::run());
-        return;
-    }
     rt.block_on(async {
         if only.as_deref() != Some("e2e") {
             specials::run(&mut sink, &mut ss).await;
